@@ -115,7 +115,13 @@ claim("C13", "TS-SCCP of the encoder under each (strict flag, value type) contex
       "shapes (arrays and sets collide: known finding). Round-trip equality itself (number ranges, CSV quoting, YAML scalars, bits) is value-level "
       "and not decided.", NOTE, "DESIGN.md §3 C13")
 
-for pid in ["C02","C05","C07"]:
+claim("C05", "TS-SCCP dispatch totality of CallAll/Concatenate over all representation pairs, hole-guard sibling check in the >> evaluator, store-read-implies-offset-read rule over go/ssa",
+      "Decides structural necessary conditions of keyed-collection semantics: (R05a) no CallAll(representation x argument type) or Concatenate(pair) "
+      "cell definitely panics; (R05b) each branch of the >> / >>> evaluator that maps over a holey store tests the hole marker before handing the "
+      "element to the function; (R05c) a function that builds a sequence from another operand's backing store also reads that operand's offset. "
+      "Which value is returned for a key, the ?: fallback classification and shift arithmetic are value-level and not decided.", NOTE, "DESIGN.md §3 C05")
+
+for pid in ["C02","C07"]:
     na(pid, "check under construction in this session (see DESIGN.md §3); not claimed until its rules are registered")
 na("C14", "agreement of a hand-written array matcher with strings/bytes over all sequences is a relation between runtime values computed by "
           "loops with data-dependent indices; no sound structural clause with teeth exists (DESIGN.md §3 C14)")
